@@ -249,6 +249,7 @@ func TestCheck(t *testing.T) {
 	}
 	legacy(t, s)
 	largeFrames(s, thorough)
+	fieldSizes(s, sch, vts, thorough)
 	s.Finish()
 }
 
